@@ -156,7 +156,9 @@ func (s *Server) Run(addr string, opt ...Option) error {
 	s.listener, err = net.Listen("tcp", addr)
 	s.listenerReady = true
 	s.mu.Unlock()
+	verifPoint("run.listened", 0, 0)
 	if err != nil {
+		verifPoint("run.listenfailed", 0, 0)
 		return fmt.Errorf("%s: unable to listen to addr %s: %w", op, addr, err)
 	}
 	if opts.withTLSConfig != nil {
@@ -171,14 +173,17 @@ func (s *Server) Run(addr string, opt ...Option) error {
 	connID := 0
 	for {
 		connID++
+		verifPoint("run.looptop", connID, 0)
 		select {
 		case <-s.shutdownCtx.Done():
+			verifPoint("run.ctxdone", connID, 0)
 			return nil
 		default:
 			// need a default to fall through to rest of loop...
 		}
 		c, err := s.listener.Accept()
 		if err != nil {
+			verifPoint("run.accepterr", connID, 0)
 			if strings.Contains(err.Error(), "use of closed network connection") {
 				s.logger.Debug("accept on closed conn")
 				return nil
@@ -191,20 +196,29 @@ func (s *Server) Run(addr string, opt ...Option) error {
 			return fmt.Errorf("%s: unable to create in-memory conn: %w", op, err)
 		}
 		localConnID := connID
+		verifPoint("run.accepted", connID, 0)
 		s.connWg.Add(1)
+		verifPoint("run.added", connID, 0)
 		go func() {
+			verifPoint("conn.start", localConnID, 0)
 			defer func() {
+				verifPoint("conn.teardown", localConnID, 0)
 				s.logger.Debug("connWg done", "op", op, "conn", localConnID)
+				verifPoint("conn.wgdone", localConnID, 0)
 				s.connWg.Done()
 				err := conn.close()
+				verifPoint("conn.closed", localConnID, 0)
 				if err != nil {
 					s.logger.Error("error closing conn", "op", op, "conn", localConnID, "conn/req", "err", err)
 					// we are intentionally not returning here; since we still
 					// need to call the onCloseHandler if it's not nil
 				}
 				if s.onCloseHandler != nil {
+					verifPoint("conn.onclose", localConnID, 0)
 					s.onCloseHandler(localConnID)
+					verifPoint("conn.oncloseend", localConnID, 0)
 				}
+				verifPoint("conn.gone", localConnID, 0)
 			}()
 
 			if !s.disablePanicRecovery {
@@ -212,6 +226,7 @@ func (s *Server) Run(addr string, opt ...Option) error {
 				// handling a single conn causes a panic
 				defer func() {
 					if r := recover(); r != nil {
+						verifPoint("conn.recovered", localConnID, 0)
 						s.logger.Error("Caught panic while serving request", "op", op, "conn", localConnID, "conn/req", fmt.Sprintf("%+v: %+v", c, r))
 					}
 				}()
@@ -247,6 +262,8 @@ func (s *Server) Stop() error {
 	const op = "gldap.(Server).Stop"
 	s.mu.RLock()
 	defer s.mu.RUnlock()
+	verifPoint("stop.begin", 0, 0)
+	defer verifPoint("stop.return", 0, 0)
 
 	s.logger.Debug("shutting down")
 	if s.listener == nil && s.shutdownCancel == nil {
@@ -265,12 +282,15 @@ func (s *Server) Stop() error {
 			}
 		}
 	}
+	verifPoint("stop.lclosed", 0, 0)
 	if s.shutdownCancel != nil {
 		s.logger.Debug("shutdown cancel func")
 		s.shutdownCancel()
 	}
+	verifPoint("stop.cancelled", 0, 0)
 	s.logger.Debug("waiting on connections to close")
 	s.connWg.Wait()
+	verifPoint("stop.waited", 0, 0)
 	s.logger.Debug("stopped")
 	return nil
 }
